@@ -43,6 +43,16 @@ C07 search
     class with different settings in one chain); unrelated proposals constructed in the process
     (before / after the sampler / between runs) must change nothing; the class-level attributes of
     the package are compared before and after.
+    Sequences: configurations with a `schedule` (run(n) several times, clear() at iterations that
+    are and are not multiples of the swap interval, run(0), reload of the own state, save / rebuild /
+    load) go through every pool kind (deep-copying, pickling, chunk-copying, reordering, process
+    pools, pools created first); everything readable — histories, swap history and its acceptance,
+    current values, start, lengths, state, generator — is compared after every run of the sequence.
+    The caller's objects: for every proposal family (angular, discrete, solid angle with radec /
+    degs, ...) under the MH and the PT sampler, digests of the start arrays, betas array, parameter
+    list, proposal objects and model after every construction, start and run (serial and pooled);
+    a serial and a pooled sampler given the SAME objects, and a later sampler with one chain's start
+    moved in the same arrays, against a sampler that has copies of its own.
 
 Oracles are exact (bit-identical digests, object identity); nothing statistical.
 """
@@ -126,6 +136,15 @@ def _try(f):
         return 'ValueError:%s' % (str(e)[:40],)
 
 
+def _try_any(f):
+    """For the accessors that may legitimately raise other things in some states (nothing run yet,
+    just cleared): the same exception in the runs compared is the same observable."""
+    try:
+        return f()
+    except Exception as e:
+        return '%s:%s' % (type(e).__name__, str(e)[:40])
+
+
 def chain_parts(ch):
     """Everything a user can read from one chain after a run."""
     parts = {
@@ -140,6 +159,18 @@ def chain_parts(ch):
         parts['betas'] = numpy.array(ch.betas, dtype=float)
         parts['level_betas'] = [float(l.beta) for l in ch.chains]
     return {k: sha(v) for k, v in parts.items()}
+
+
+def chain_parts_full(ch):
+    """`chain_parts` plus the current values, the start and the lengths (after sequences of run / clear)."""
+    parts = {'current_position': _try_any(lambda: ch.current_position),
+             'current_stats': _try_any(lambda: ch.current_stats),
+             'current_blob': _try_any(lambda: ch.current_blob),
+             'start_position': _try_any(lambda: ch.start_position),
+             'len': _try_any(lambda: len(ch)), 'lastclear': _try_any(lambda: ch.lastclear)}
+    out = chain_parts(ch)
+    out.update({k: sha(v) for k, v in parts.items()})
+    return out
 
 
 def sampler_parts(s):
@@ -1048,6 +1079,15 @@ class CopyPool:
         return [f(copy.deepcopy(a)) for a in args]
 
 
+class PickleMap:
+    """`map` sends every argument and every result through pickle, like a process pool, in this process."""
+    name = 'pickle-map'
+
+    def map(self, f, args):
+        import pickle
+        return [pickle.loads(pickle.dumps(f(pickle.loads(pickle.dumps(a))))) for a in args]
+
+
 class ChunkCopyPool:
     """Chunks of `size` arguments are deep-copied *together* (sharing inside a chunk survives,
     as in multiprocessing's chunked tasks) and evaluated in order."""
@@ -1129,7 +1169,35 @@ C07_CFGS = [
     ('pt-reset-ss-at', {'nparams': 4, 'props': [('plain', [0], False), ('plain', [1], False), ('plain', [2, 3], False)],
                         'kind': ('pt', 3, False), 'nchains': 3, 'seed': 209},
      {'family': ['ss_adaptive_normal', 'ss_adaptive_bounded_normal', 'at_adaptive_normal'], 'reset_after_swap': True}),
+    # sequences of run(n) / clear() ('c') / reload of the own state ('s') / save + rebuild + load ('S'):
+    # several short runs, clears at iterations that are and are not multiples of the swap interval, run(0);
+    # everything readable (histories, swap history, current values, start, state) after every run
+    ('pt-sequence-swap3', {'nparams': 2, 'props': [('plain', [0], False)], 'kind': ('pt', 3, False), 'nchains': 2,
+                           'seed': 211}, {'swap_interval': 3, 'schedule': [4, 'c', 1, 1, 4, 0, 'c', 3, 's', 2]}),
+    ('pt-sequence-swap2-ladder', {'nparams': 2, 'props': [('plain', [0, 1], False)], 'kind': ('pt', 3, True),
+                                  'nchains': 2, 'seed': 212},
+     {'swap_interval': 2, 'blobs': True, 'family': ['adaptive_normal'],
+      'schedule': [5, 2, 'c', 2, 3, 'S', 3, 'c', 0, 1, 1]}),
+    ('mh-sequence', {'nparams': 2, 'props': [('plain', [1], False)], 'kind': ('mh',), 'nchains': 3, 'seed': 213},
+     {'blobs': True, 'family': ['ss_adaptive_normal'], 'schedule': [3, 'c', 0, 2, 's', 1, 'c', 'c', 4, 'S', 2]}),
 ]
+
+
+def _span(opts, niter):
+    if opts.get('schedule'):
+        return ('over the sequence %s (n = run(n), c = clear(), s = reload of the own state, S = save / rebuild / load; '
+                'output "k:name" read after step k)' % (opts['schedule'],)).replace("'", '')
+    return 'after %d iterations' % niter
+
+
+def gen_schedule(rng, nops=None):
+    """A random sequence of run(0..5) / clear / state reloads that ends with a run."""
+    nops = nops or rng.randint(5, 10)
+    out = [rng.randint(1, 5)]
+    while len(out) < nops:
+        r = rng.random()
+        out.append('c' if r < 0.3 else 's' if r < 0.38 else 'S' if r < 0.44 else 0 if r < 0.5 else rng.randint(1, 5))
+    return out + [rng.randint(1, 4)]
 
 
 def c07_run(cfg, opts, pool, niter, salt=0, perturb=None, unshare_annealer=False, between=None, keep=None):
@@ -1158,12 +1226,41 @@ def c07_run(cfg, opts, pool, niter, salt=0, perturb=None, unshare_annealer=False
                 start[p] = start[p].copy()
                 v = start[p][..., perturb]
                 start[p][..., perturb] = numpy.where(numpy.isnan(v), numpy.nan, v + 0.123)
+    given = [sha([start[p][..., i] for p in sorted(start)]) for i in range(cfg['nchains'])]
     s.start_position = start
-    s.run(niter // 2)
-    if between is not None:
-        between('mid')
-    s.run(niter - niter // 2)
-    return [chain_parts(c) for c in s.chains], s
+    schedule = opts.get('schedule')
+    if schedule is None:
+        s.run(niter // 2)
+        if between is not None:
+            between('mid')
+        s.run(niter - niter // 2)
+        out = [chain_parts_full(c) for c in s.chains]
+    else:
+        # a sequence of run(n) / clear() / set_state(state) calls; everything readable after every run
+        out = [{} for _ in s.chains]
+        for k, op in enumerate(list(schedule) + ['end']):
+            if op == 'c':
+                s.clear()
+            elif op == 's':
+                s.set_state(s.state)                 # reload its own state
+            elif op == 'S':
+                # save, build the same sampler again (same pool), load, go on with the new one
+                state = copy.deepcopy(s.state)
+                s, _ = G.build_real(cfg, family=opts.get('family', 'normal'), model=model, pool=pool,
+                                    swap_interval=opts.get('swap_interval', 1), rng=random.Random(9),
+                                    reset_after_swap=opts.get('reset_after_swap', False))
+                s.set_state(state)
+            elif op != 'end':
+                s.run(int(op))
+            if op == 'end' or not isinstance(op, str):
+                for i, c in enumerate(s.chains):
+                    out[i].update({'%d:%s' % (k, key): v for key, v in chain_parts_full(c).items()})
+            if k == 0 and between is not None:
+                between('mid')
+    # the arrays the caller passed in, as they are now (chain by chain)
+    for i in range(cfg['nchains']):
+        out[i]['caller_start_arrays_unchanged'] = sha([start[p][..., i] for p in sorted(start)]) == given[i]
+    return out, s
 
 
 C07_FAMILIES = ['normal', 'adaptive_normal', 'ss_adaptive_normal', 'at_adaptive_normal', 'bounded_normal',
@@ -1173,6 +1270,17 @@ C07_FAMILIES = ['normal', 'adaptive_normal', 'ss_adaptive_normal', 'at_adaptive_
 
 def c07_cfgs(tier, seed):
     out = list(C07_CFGS)
+    srng = random.Random(seed * 29 + 7)
+    for k in range(1 if tier == 'quick' else 8):
+        si = srng.choice([2, 3, 3, 4, 5])
+        nt = srng.choice([2, 3, 4])
+        ann = nt >= 3 and srng.random() < 0.3
+        out.append(('pt-sequence-random-%d' % k,
+                    {'nparams': 2, 'props': [('plain', [srng.randint(0, 1)], False)], 'kind': ('pt', nt, ann),
+                     'nchains': 2, 'seed': srng.randint(0, 10 ** 6)},
+                    {'swap_interval': si, 'blobs': srng.random() < 0.4,
+                     'family': [srng.choice(C07_FAMILIES)], 'reset_after_swap': srng.random() < 0.3,
+                     'schedule': gen_schedule(srng)}))
     if tier == 'thorough':
         rng = random.Random(seed * 17 + 3)
         k = 0
@@ -1208,7 +1316,7 @@ def c07_search(chk, tier):
         o = list(range(n))
         random.Random(perm_seed + n).shuffle(o)
         return o
-    inproc_pools = [CopyPool(), ChunkCopyPool(2), OrderPool(lambda n: list(range(n))[::-1], 'reversed'),
+    inproc_pools = [CopyPool(), PickleMap(), ChunkCopyPool(2), OrderPool(lambda n: list(range(n))[::-1], 'reversed'),
                     OrderPool(shuffled, 'shuffled')]
     findings = []
     skipped = []
@@ -1218,7 +1326,13 @@ def c07_search(chk, tier):
     try:
         for name, cfg, opts in cfgs:
             annealed = cfg['kind'][0] == 'pt' and cfg['kind'][2]
-            variants = [False] + ([True] if annealed else [])
+            # the harness copying the annealer per chain is a separate variant only where the code under test
+            # hands one instance to all chains (measured); otherwise it changes nothing
+            variants = [False] + ([True] if annealed and not variant()['annealerPerChain'] else [])
+            # sequences: the pools that copy (what a sequence can be sensitive to), one process pool, one perturbation
+            sched = bool(opts.get('schedule'))
+            pools_here = inproc_pools + procpools if not sched else \
+                [q for q in inproc_pools if q.name in ('deepcopy-map', 'pickle-map', 'chunk-copy-2')] + procpools[1:2]
             for unshare in variants:
                 label = name + ('(annealer copied per chain by the harness)' if unshare else '')
                 try:
@@ -1226,7 +1340,13 @@ def c07_search(chk, tier):
                 except REAL_CODE_ERRORS as e:
                     skipped.append((label, repr(e)[:120]))     # the serial run itself raises: other properties
                     break
-                for pool in inproc_pools + procpools:
+                touched = [i for i, r in enumerate(ref) if not r['caller_start_arrays_unchanged']]
+                if touched:
+                    findings.append(('input-mutated:%s' % name, '%s: the serial run changed the start arrays the caller '
+                                     'passed in (entries of chain(s) %s)' % (label, touched),
+                                     {'cfg': cfg, 'opts': opts, 'niter': niter, 'manifestation': 'input-mutated',
+                                      'chains': touched, 'unshare': unshare}))
+                for pool in pools_here:
                     try:
                         got, _ = c07_run(cfg, opts, pool, niter, unshare_annealer=unshare)
                     except REAL_CODE_ERRORS as e:
@@ -1242,16 +1362,16 @@ def c07_search(chk, tier):
                         diff = sorted(k for k in ref[i] if ref[i][k] != got[i].get(k))
                         key = KEY_F5 if (annealed and not unshare and not variant()['annealerPerChain']) \
                             else 'pool-dependence:%s' % name
-                        findings.append((key, '%s: chain(s) %s differ between pool=None and %s after %d iterations '
-                                         '(differing outputs of chain %d: %s)' % (label, bad, pool.name, niter, i,
-                                                                                  ', '.join(diff)),
+                        findings.append((key, '%s: chain(s) %s differ between pool=None and %s %s '
+                                         '(differing outputs of chain %d: %s)' % (label, bad, pool.name, _span(opts, niter), i,
+                                                                                  ', '.join(diff[:10])),
                                          {'cfg': cfg, 'opts': opts, 'niter': niter, 'pool': pool.name,
                                           'chains': bad, 'manifestation': 'serial-vs-pool', 'unshare': unshare,
                                           'how_to_replay': './check C07 --replay <this file>'}))
                         break
                 # perturb the start of one chain, diff every other chain
-                for j in sorted({0, cfg['nchains'] - 1}):
-                    for pool in (None, inproc_pools[0]):
+                for j in sorted({0, cfg['nchains'] - 1}) if not sched else [0]:
+                    for pool in (None, inproc_pools[0]) if not sched else (None,):
                         try:
                             got, _ = c07_run(cfg, opts, pool, niter, perturb=j, unshare_annealer=unshare)
                         except REAL_CODE_ERRORS as e:
@@ -1470,6 +1590,10 @@ POOLFIRST_CFGS = [
     ('poolfirst-pt-reset-veitch-eigenvector', {'nparams': 3, 'props': [('plain', [0], False), ('plain', [1, 2], False)],
                                                'kind': ('pt', 3, False), 'nchains': 2, 'seed': 223},
      {'family': ['adaptive_normal', 'adaptive_eigenvector'], 'reset_after_swap': True, 'swap_interval': 2}),
+    ('poolfirst-pt-sequence-swap3', {'nparams': 2, 'props': [('plain', [1], False)], 'kind': ('pt', 3, False),
+                                     'nchains': 2, 'seed': 225},
+     {'swap_interval': 3, 'reset_after_swap': True, 'family': ['ss_adaptive_normal'],
+      'schedule': [4, 'c', 1, 1, 4, 2, 'c', 0, 2, 's', 3]}),
     ('poolfirst-mh-adaptive', {'nparams': 3, 'props': [('plain', [0], False), ('plain', [1], False)],
                                'kind': ('mh',), 'nchains': 4, 'seed': 224},
      {'family': ['ss_adaptive_normal', 'at_adaptive_normal']}),
@@ -1605,9 +1729,9 @@ def poolfirst_search(chk, tier, started=None):
                 diff = sorted(k for k in r['ref'][bad[0]] if r['ref'][bad[0]][k] != got[bad[0]].get(k))
                 findings.append(('pool-dependence:%s' % name,
                                  '%s%s: chain(s) %s differ between pool=None and %s (the pool existed before the sampler and '
-                                 'its proposals were built) after %d iterations (differing outputs of chain %d: %s)' % (
+                                 'its proposals were built) %s (differing outputs of chain %d: %s)' % (
                                      name, ' (reset_after_swap=True)' if opts.get('reset_after_swap') else '', bad, label,
-                                     niter, bad[0], ', '.join(diff)), dict(base, chains=bad)))
+                                     _span(opts, niter), bad[0], ', '.join(diff[:10])), dict(base, chains=bad)))
                 break
     if meta.get('class_state_changed'):
         findings.append(('class-state-mutated', 'building and running samplers changed class-level / module-level attributes of '
@@ -1675,6 +1799,224 @@ def class_state_search(chk, tier):
                   'of the user\'s untouched object it was copied from; chains bit-identical with / without unrelated '
                   'proposals constructed before / after the sampler / between runs; class-level attributes unchanged'}
     chk.coverage['evaluations'] = chk.coverage.get('evaluations', 0) + nres + ncmp
+    return findings
+
+
+# --------------------------------------------------------------------------
+# C07: the caller's input objects, and samplers that are given the same ones
+# --------------------------------------------------------------------------
+#
+# What a pool cannot do, a serial run may not do either: change the objects the caller passed in
+# (start arrays, betas array, proposal objects, model, parameter list).  And two samplers that are
+# given the SAME objects must behave as if each had been given its own copies: a serial and a pooled
+# sampler started from one dictionary of arrays, and a sampler whose start differs in one chain only.
+# Every proposal family of harness/families.py (angular, discrete, solid angle with radec / degs
+# flags, ...), Metropolis-Hastings (the chains get 0-d views of the caller's arrays) and parallel
+# tempered.
+
+def input_case(family, kind, flags, seed, optional):
+    """The input objects of one case, made from `seed` (nothing else): dict with parameters, start
+    arrays, betas array, proposal objects, model; plus how to draw a replacement start for one chain."""
+    import families as F
+    rng = random.Random(seed)
+    cls, pkind, lo, hi = F.FAMILIES[family]
+    n = max(lo, min(hi, 2))
+    names = ['q%d' % j for j in range(n)]
+    doms = {p: (tuple(flags) if pkind == 'sphere' else F.domain_for(pkind, rng, j)) for j, p in enumerate(names)}
+    nchains, betas = 3, numpy.array([1.0, 0.5, 0.25])
+    shape = (nchains,) if kind == 'mh' else (len(betas), nchains)
+
+    def values(j, p, size):
+        return [F.start_value(pkind, doms[p], rng, which=j) for _ in range(size)]
+    dtype = int if pkind in ('int', 'intbox') else float
+    start = {p: numpy.array(values(j, p, int(numpy.prod(shape))), dtype=dtype).reshape(shape)
+             for j, p in enumerate(names)}
+    start['x'] = numpy.array([rng.uniform(-1, 1) for _ in range(int(numpy.prod(shape)))]).reshape(shape)
+    prop = F.make(family, names, doms, random.Random(seed + 1), window=8, optional=optional)
+    allnames = names + ['x']
+    annealer = None
+    if kind == 'pt' and seed % 3 != 0:
+        from epsie.chain.ptchain import DynamicalAnnealer
+        annealer = DynamicalAnnealer(tau=20, nu=4)
+    return {'parameters': allnames, 'start': start, 'betas': betas, 'proposals': [prop], 'annealer': annealer,
+            'model': G.QuadModel(allnames, blobs=seed % 2 == 1, box=1000.0), 'kind': kind,
+            'seed': seed % 1000 + 1, 'nchains': nchains,
+            'redraw': lambda: {p: numpy.array(values(j, p, int(numpy.prod(shape[:-1]))), dtype=dtype).reshape(shape[:-1])
+                               for j, p in enumerate(names)}}
+
+
+def input_digests(inp):
+    import pickle
+    d = {'start[%s]' % p: sha(a) for p, a in inp['start'].items()}
+    d['start (keys)'] = sha(list(inp['start']))
+    d['betas'] = sha(inp['betas'])
+    d['parameters'] = sha(list(inp['parameters']))
+    d['proposal objects'] = hashlib.sha1(pickle.dumps(inp['proposals'])).hexdigest()[:16]
+    d['model'] = hashlib.sha1(pickle.dumps(inp['model'])).hexdigest()[:16]
+    d['annealer'] = hashlib.sha1(pickle.dumps(inp['annealer'])).hexdigest()[:16]
+    return d
+
+
+def input_sampler(inp, pool):
+    from epsie.samplers import MetropolisHastingsSampler, ParallelTemperedSampler
+    if inp['kind'] == 'mh':
+        return MetropolisHastingsSampler(inp['parameters'], inp['model'], inp['nchains'], proposals=inp['proposals'],
+                                         seed=inp['seed'], pool=pool)
+    return ParallelTemperedSampler(inp['parameters'], inp['model'], inp['nchains'], inp['betas'], swap_interval=2,
+                                   proposals=inp['proposals'], adaptive_annealer=inp['annealer'], seed=inp['seed'],
+                                   pool=pool)
+
+
+def input_case_run(family, kind, flags, seed, optional, pools=None, runs=(3, 4)):
+    """Returns (findings, number of digest checks, number of chain comparisons)."""
+    import logging
+    logging.disable(logging.WARNING)
+    pools = pools if pools is not None else [PickleMap()]
+    tag = '%s/%s%s' % (kind, family, '(radec=%s, degs=%s)' % tuple(flags) if flags else '')
+    base = {'inputs_case': {'family': family, 'kind': kind, 'flags': list(flags) if flags else None, 'seed': seed,
+                            'optional': optional, 'runs': list(runs)},
+            'how_to_replay': './check C07 --replay <this file>'}
+    findings = []
+    nchk = ncmp = 0
+    inp = input_case(family, kind, flags, seed, optional)
+    # reference: a sampler that has every input object to itself
+    own = copy.deepcopy({k: v for k, v in inp.items() if k != 'redraw'})
+    R = input_sampler(own, None)
+    R.start_position = own['start']
+    for n in runs:
+        R.run(n)
+    ref = [chain_parts_full(c) for c in R.chains]
+    expect = input_digests(inp)
+    values = {p: a.copy() for p, a in inp['start'].items()}
+    betas0 = inp['betas'].copy()
+
+    def check(what):
+        nonlocal nchk
+        nchk += 1
+        now = input_digests(inp)
+        bad = sorted(k for k in expect if expect[k] != now.get(k))
+        if bad and not any(f[0].startswith('input-mutated') for f in findings):
+            detail = ''
+            if 'betas' in bad:
+                detail = ': betas was %s and is now %s' % (numpy.array2string(betas0, precision=5),
+                                                          numpy.array2string(inp['betas'], precision=5))
+            for p, a in inp['start'].items():
+                if 'start[%s]' % p in bad:
+                    detail = ': start[%r] was %s and is now %s' % (
+                        p, numpy.array2string(values[p], precision=5).replace('\n', ''),
+                        numpy.array2string(a, precision=5).replace('\n', ''))
+                    break
+            findings.append(('input-mutated:' + tag, '%s: %s changed objects the caller passed in (%s)%s' % (
+                tag, what, ', '.join(bad), detail), dict(base, manifestation='input-mutated', step=what, changed=bad)))
+        return not bad
+
+    samplers = []
+    for pool in [None] + pools:
+        samplers.append((pool, input_sampler(inp, pool)))
+        check('constructing a %s sampler' % ('serial' if pool is None else pool.name))
+    for pool, smp in samplers:
+        smp.start_position = inp['start']
+        check('setting the start of the %s sampler' % ('serial' if pool is None else pool.name))
+    for n in runs:
+        for pool, smp in samplers:
+            smp.run(n)
+            check('run(%d) of the %s sampler' % (n, 'serial' if pool is None else pool.name))
+    for pool, smp in samplers:
+        got = [chain_parts_full(c) for c in smp.chains]
+        ncmp += len(ref)
+        bad = [i for i in range(len(ref)) if ref[i] != got[i]]
+        if bad:
+            diff = sorted(k for k in ref[bad[0]] if ref[bad[0]][k] != got[bad[0]].get(k))
+            findings.append(('shared-inputs:' + tag, '%s: a serial and %d pooled sampler(s) were given the SAME start arrays, '
+                             'betas, proposal objects and model; the %s one differs in chain(s) %s from a sampler that has '
+                             'copies of its own (differing outputs of chain %d: %s)' % (
+                                 tag, len(pools), 'serial' if pool is None else pool.name, bad, bad[0], ', '.join(diff[:8])),
+                             dict(base, manifestation='shared-inputs', pool=None if pool is None else pool.name,
+                                  chains=bad)))
+            break
+    # the caller moves the start of the last chain in the same arrays and builds another sampler from them
+    j = inp['nchains'] - 1
+    new = inp['redraw']()
+    for p, v in new.items():
+        inp['start'][p][..., j] = v
+    inp['start']['x'][..., j] += 0.375
+    expect = input_digests(inp)
+    values = {p: a.copy() for p, a in inp['start'].items()}
+    C = input_sampler(inp, None)
+    C.start_position = inp['start']
+    for n in runs:
+        C.run(n)
+    check('a second serial sampler built from the same objects (start of chain %d moved)' % j)
+    got = [chain_parts_full(c) for c in C.chains]
+    ncmp += len(ref) - 1
+    vacuous = got[j] == ref[j]
+    bad = [i for i in range(len(ref)) if i != j and ref[i] != got[i]]
+    if bad:
+        diff = sorted(k for k in ref[bad[0]] if ref[bad[0]][k] != got[bad[0]].get(k))
+        findings.append(('shared-inputs:' + tag, '%s: after other samplers were built from the same start arrays and run, a '
+                         'sampler built from them with only the start of chain %d moved differs in chain(s) %s from the '
+                         'reference (differing outputs of chain %d: %s)' % (tag, j, bad, bad[0], ', '.join(diff[:8])),
+                         dict(base, manifestation='shared-inputs', perturbed=j, chains=bad)))
+    return findings, nchk, ncmp, vacuous
+
+
+SPHERE_FLAGS = [(False, False), (True, False), (False, True), (True, True)]
+
+
+def input_cases(tier, seed):
+    """[(family, kind, flags, case seed, optional)]"""
+    import families as F
+    rng = random.Random(seed * 37 + 13)
+    out = []
+    fams = sorted(F.FAMILIES)
+    for i, fam in enumerate(fams):
+        sphere = F.FAMILIES[fam][1] == 'sphere'
+        flagsets = SPHERE_FLAGS if sphere else [None]
+        for fl in flagsets:
+            kinds = ['mh', 'pt'] if tier != 'quick' or (i + seed) % 3 == 0 else ['mh']
+            for kind in kinds:
+                out.append((fam, kind, fl, rng.randint(0, 10 ** 6), rng.choice([None, rng.randint(0, 99)])))
+        if tier != 'quick':
+            for _ in range(2):
+                out.append((fam, rng.choice(['mh', 'pt']), rng.choice(SPHERE_FLAGS) if sphere else None,
+                            rng.randint(0, 10 ** 6), rng.randint(0, 99)))
+    return out
+
+
+def inputs_search(chk, tier):
+    if not unpatched_random_generator():
+        raise RuntimeError('BaseRandom.random_generator is patched from outside while the C07 search runs')
+    cases = input_cases(tier, chk.seed)
+    pools = [PickleMap()] if tier == 'quick' else [PickleMap(), CopyPool()]
+    runs = (2, 2) if tier == 'quick' else (3, 4)
+    findings = []
+    nchk = ncmp = nvac = 0
+    skipped = []
+    hist = {}
+    for fam, kind, flags, cseed, optional in cases:
+        try:
+            f, a, b, vac = input_case_run(fam, kind, flags, cseed, optional, pools, runs)
+        except REAL_CODE_ERRORS as e:
+            skipped.append(('%s/%s' % (kind, fam), repr(e)[:120]))     # the real code raised: other properties
+            continue
+        findings += f
+        nchk += a
+        ncmp += b
+        nvac += vac
+        hist[kind] = hist.get(kind, 0) + 1
+    chk.coverage.setdefault('search', {})['caller_inputs'] = {
+        'cases': len(cases), 'families': len({c[0] for c in cases}), 'by_sampler': hist,
+        'tempered_cases_with_a_dynamic_ladder': sum(1 for c in cases if c[1] == 'pt' and c[3] % 3 != 0),
+        'solid_angle_flag_combinations': len({tuple(c[2]) for c in cases if c[2]}),
+        'with_non_default_optional_arguments': sum(1 for c in cases if c[4] is not None),
+        'input_digest_checks': nchk, 'chain_history_comparisons': ncmp,
+        'perturbations_that_changed_nothing_in_the_moved_chain': nvac,
+        'pools': [p.name for p in pools], 'skipped_because_the_real_code_raised': skipped,
+        'oracle': 'digests of the start arrays, the betas array, the parameter list, the pickled proposal objects, the '
+                  'pickled annealer and the pickled model unchanged after every construction / start / run (serial and pooled); a serial '
+                  'and a pooled sampler given the SAME objects, and a later sampler with one chain\'s start moved in '
+                  'the same arrays, bit-identical (chains i != j) to a sampler that has copies of its own'}
+    chk.coverage['evaluations'] = chk.coverage.get('evaluations', 0) + nchk + ncmp
     return findings
 
 
@@ -1800,6 +2142,15 @@ def replay(path):
     logging.disable(logging.WARNING)
     d = json.load(open(path))
     key = d.get('key', '')
+    if d.get('inputs_case'):
+        c = d['inputs_case']
+        f, nchk, ncmp, _ = input_case_run(c['family'], c['kind'], tuple(c['flags']) if c.get('flags') else None,
+                                          c['seed'], c.get('optional'), runs=tuple(c.get('runs', (3, 4))))
+        for _, t, _ in f:
+            print(t)
+        print('%d digest checks of the caller\'s objects, %d chain comparisons: %s' % (
+            nchk, ncmp, 'VIOLATED' if f else 'inputs unchanged, samplers independent'))
+        return 1 if f else 0
     cfg = d.get('cfg')
     if cfg is None:
         print('replay file carries no configuration; it names what no longer checks:', d.get('no_longer_checks'))
@@ -1839,6 +2190,11 @@ def replay(path):
             print('pool=None vs %s: differing chains %s' % (label, bad))
         print('class-level attributes changed: %s' % (out['__meta__'].get('class_state_changed') or 'none'))
         return 1 if bad_any else 0
+    if man == 'input-mutated' and 'family' not in d:
+        ref, _ = c07_run(cfg, opts, None, d.get('niter', 24), unshare_annealer=d.get('unshare', False))
+        touched = [i for i, r in enumerate(ref) if not r['caller_start_arrays_unchanged']]
+        print('start arrays passed in by the caller changed by the serial run: entries of chains %s' % (touched or 'none'))
+        return 1 if touched else 0
     if d.get('property') == 'C07' or man in ('serial-vs-pool', 'perturbation'):
         niter = d.get('niter', 24)
         un = d.get('unshare', False)
@@ -1849,9 +2205,15 @@ def replay(path):
             bad = [i for i in range(len(ref)) if i != d['perturbed'] and ref[i] != got[i]]
             print('perturbing chain %d changes chains %s' % (d['perturbed'], bad))
         else:
-            got, _ = c07_run(cfg, opts, CopyPool(), niter, unshare_annealer=un)
+            pool = {'pickle-map': PickleMap(), 'chunk-copy-2': ChunkCopyPool(2)}.get(d.get('pool'), CopyPool())
+            got, _ = c07_run(cfg, opts, pool, niter, unshare_annealer=un)
             bad = [i for i in range(len(ref)) if ref[i] != got[i]]
-            print('pool=None vs deep-copying map: differing chains %s' % bad)
+            print('pool=None vs %s: differing chains %s' % (pool.name, bad))
+            for i in bad[:1]:
+                print('differing outputs of chain %d: %s' % (i, ', '.join(sorted(k for k in ref[i] if ref[i][k] != got[i].get(k)))))
+            if opts.get('schedule'):
+                print('schedule (n = run(n), c = clear, s = reload own state, S = save / rebuild / load): %s; an output '
+                      '"k:name" was read after step k of it' % (opts['schedule'],))
         return 1 if bad else 0
     if man == 'preuse-differs':
         runs, calls = preuse_runs(cfg, opts, d.get('niter', 24), d.get('ndraws', 1),
